@@ -276,6 +276,8 @@ def run(ctx):
     r2_oldpin(ctx, prog)
     r3_accept(ctx, prog)
     r4_masterkey(ctx, prog)
+    from rules import c14
+    c14.r2_createtoken(ctx, prog, rule_id='C04.R5')
 
 
 MUTANTS = [
